@@ -508,7 +508,7 @@ func c20Modes(r *Run) {
 	var fromSpecial = map[uint64]uint64{} // os bit -> p9 bit
 	okShape := true
 	specialInSwitch := false
-	for _, s := range mf.Decl.Body.List {
+	for _, s := range flattenBlocks(mf.Decl.Body.List) {
 		switch v := s.(type) {
 		case *ast.SwitchStmt:
 			if v.Tag != nil {
@@ -568,7 +568,7 @@ func c20Modes(r *Run) {
 	toSpecial := map[uint64]uint64{}
 	permMask := uint64(0)
 	isX := map[string]uint64{"IsDir": posix["ModeDirectory"], "IsSymlink": posix["ModeSymlink"], "IsSocket": posix["ModeSocket"], "IsNamedPipe": posix["ModeNamedPipe"], "IsCharacterDevice": posix["ModeCharacterDevice"], "IsBlockDevice": posix["ModeBlockDevice"], "IsRegular": posix["ModeRegular"]}
-	for _, s := range om.Decl.Body.List {
+	for _, s := range flattenBlocks(om.Decl.Body.List) {
 		switch v := s.(type) {
 		case *ast.AssignStmt:
 			// osMode |= os.FileMode(m & AllPermissions)  (or as part of the initialising expression)
@@ -699,4 +699,18 @@ func c20Modes(r *Run) {
 		}
 		r.check(okQ, "r5", "QIDType maps directory, symlink and regular file", qt.Decl.Pos(), "dir→QTDIR, symlink→QTSYMLINK, regular→QTFILE, nothing else claims those", fmt.Sprintf("QIDType table (file type → QID type byte) is %v", got))
 	}
+}
+
+// flattenBlocks lists the statements of a body with plain nested blocks opened up (a loop over
+// a fixed table is judged in its written-out form: one block per row, see unroll.go).
+func flattenBlocks(list []ast.Stmt) []ast.Stmt {
+	var out []ast.Stmt
+	for _, s := range list {
+		if b, ok := s.(*ast.BlockStmt); ok {
+			out = append(out, flattenBlocks(b.List)...)
+			continue
+		}
+		out = append(out, s)
+	}
+	return out
 }
